@@ -620,6 +620,35 @@ def _copy_text_file(f, memo):
     return open(os.dup(f.fileno()), mode, encoding=f.encoding, errors=f.errors)
 
 
+def install_forkable_mmap():
+    """mmap.mmap objects inside a process object: the child of a fork has the same mapping and a position pointer of
+    its own. The stand-in remembers which file it maps, so that a fork-like copy can map it again."""
+    import mmap
+    import os
+    if getattr(mmap.mmap, "_sim_forkable", False):
+        return
+    real = mmap.mmap
+
+    class ForkableMmap(real):
+        _sim_forkable = True
+
+        def __init__(self, fileno, length, *a, **kw):
+            self._sim_path = os.readlink(f"/proc/self/fd/{fileno}") if fileno != -1 else None
+            self._sim_args = (a, kw)
+
+        def __deepcopy__(self, memo):
+            if self.closed or self._sim_path is None:
+                return self
+            a, kw = self._sim_args
+            ro = kw.get("access") == mmap.ACCESS_READ or kw.get("prot") == mmap.PROT_READ
+            with open(self._sim_path, "rb" if ro else "r+b") as f:
+                new = ForkableMmap(f.fileno(), len(self), *a, **kw)
+            new.seek(self.tell())
+            return new
+
+    mmap.mmap = ForkableMmap
+
+
 def _install_lock_copiers():
     import _thread
     import io
